@@ -2,6 +2,19 @@
 TB = ("Coq 8.16.1 kernel, vm_compute only where stated, no native_compute; no axioms (Print Assumptions: closed) unless named; "
       "extraction with ExtrOcamlBasic only + ocaml/ glue; the C++ harness under /verif/harness; g++ 12.2. ")
 PROPS = {
+ "C01": {
+  "claimed": True,
+  "drivers": [("k1_when_all", "shim17")],
+  "technique": "Coq proof (inductive invariant over all schedules, parametric n) of the RefElect election model + K1 lock-step correspondence with the real when_all under a schedule-controlling shim",
+  "text": ("PARTIAL. Theorems (all numbers of children, all interleavings, any schedule length): the reference-count election used by the "
+           "concurrent combinators completes the receiver at most once, exactly once when all children have finished and no stop callback is in "
+           "flight, never before every child finished, with the documented result. Tie: every schedule with <=2 (quick) / <=3 (thorough) "
+           "pre-emptions plus seeded random schedules of the real when_all (1-4 children, every outcome combination, racing/pre-start stop) is "
+           "replayed step by step on the extracted model (each shared access incl. memory order). Sequential composition (then/let_*/sequence/"
+           "finally/...) is not yet inside a Coq model; see DESIGN section 10."),
+  "note": TB + "Sequential consistency assumed (the shim serialises threads). Stop-source internals belong to C03's model. Schedulers/timers/io completions are C06/C07/C14.",
+  "design_ref": "5/C01",
+ },
  "C17": {
   "claimed": True,
   "drivers": [("k3_c17", "plain17")],
